@@ -13,18 +13,18 @@ import (
 // datatype declarations generated from go/types, the table of dynamic-type
 // tags, uninterpreted functions and global axioms.
 type Universe struct {
-	pkg       *types.Package
-	structs   map[string]*structInfo // sort name → info
-	structOrd []string               // declaration order
-	tags      map[string]int         // canonical type string → tag
-	tagTypes  map[int]types.Type
-	nextTag   int
-	uninterp  []string          // declare-fun lines
-	uninterpN map[string]string // name → result sort
-	axioms    []namedAxiom
-	heapKeys  map[string]types.Type // heap key → element type
-	mapKeys   map[string]*types.Map
-	sizes     types.Sizes
+	pkg          *types.Package
+	structs      map[string]*structInfo // sort name → info
+	structOrd    []string               // declaration order
+	tags         map[string]int         // canonical type string → tag
+	tagTypes     map[int]types.Type
+	nextTag      int
+	uninterp     []string          // declare-fun lines
+	uninterpN    map[string]string // name → result sort
+	axioms       []namedAxiom
+	heapKeys     map[string]types.Type // heap key → element type
+	mapKeys      map[string]*types.Map
+	sizes        types.Sizes
 	preludeCache string
 }
 
@@ -370,10 +370,83 @@ func (u *Universe) buildPrelude() string {
 	}
 	b.WriteString(u.wfAnyDef())
 	for _, l := range u.uninterp {
+		if strings.HasPrefix(l, "(assert") {
+			// axioms about uninterpreted functions are added per query, only
+			// where the function occurs (condAxioms)
+			continue
+		}
 		b.WriteString(l)
 		b.WriteString("\n")
 	}
 	return b.String()
+}
+
+// condAxioms returns the prelude axioms (and user axioms) relevant to a query
+// body: those that mention an uninterpreted function occurring in the body or
+// in an axiom already selected. Axioms that mention no uninterpreted function
+// are always included.
+func (u *Universe) condAxioms(body string, user []string) string {
+	type ax struct {
+		text  string
+		names []string
+		in    bool
+	}
+	var all []*ax
+	add := func(t string) {
+		a := &ax{text: t}
+		for n := range u.uninterpN {
+			if strings.Contains(t, "("+n+" ") {
+				a.names = append(a.names, n)
+			}
+		}
+		all = append(all, a)
+	}
+	for _, l := range u.uninterp {
+		if strings.HasPrefix(l, "(assert") {
+			add(l)
+		}
+	}
+	for _, l := range user {
+		add(l)
+	}
+	var out strings.Builder
+	seen := map[string]bool{}
+	present := func(n string) bool {
+		if v, ok := seen[n]; ok {
+			return v
+		}
+		v := strings.Contains(body, "("+n+" ")
+		seen[n] = v
+		return v
+	}
+	for changed := true; changed; {
+		changed = false
+		for _, a := range all {
+			if a.in {
+				continue
+			}
+			use := len(a.names) == 0
+			for _, n := range a.names {
+				if present(n) {
+					use = true
+				}
+			}
+			if use {
+				a.in = true
+				changed = true
+				for _, n := range a.names {
+					seen[n] = true
+				}
+			}
+		}
+	}
+	for _, a := range all {
+		if a.in {
+			out.WriteString(a.text)
+			out.WriteString("\n")
+		}
+	}
+	return out.String()
 }
 
 // intRange returns lo, hi (as decimal strings) for an integer type, ok=false otherwise.
